@@ -1660,6 +1660,21 @@ class HTMLDependency(MetadataNode):
         else:
             self.head = TagList(head)
 
+    def __copy__(self) -> "HTMLDependency":
+        # A copied MetadataNode must be completely independent of the original (tagify()
+        # relies on that), so also copy what the dependency holds: the source, script,
+        # stylesheet and meta definitions and the head content.
+        cls = self.__class__
+        cp = cls.__new__(cls)
+        cp.__dict__.update(self.__dict__)
+        cp.source = copy(self.source)
+        cp.script = [copy(x) for x in self.script]
+        cp.stylesheet = [copy(x) for x in self.stylesheet]
+        cp.meta = [copy(x) for x in self.meta]
+        if self.head is not None:
+            cp.head = self.head.tagify()
+        return cp
+
     def source_path_map(
         self, *, lib_prefix: Optional[str] = "lib", include_version: bool = True
     ) -> SourcePathMapping:
